@@ -868,6 +868,28 @@ func (se *specEnv) call(x *ast.CallExpr) tv {
 		}
 		h, _ := se.v.elemHeap(sl.Elem())
 		return tv{term: sel(se.v.getHeap(se.cur, h), fmt.Sprintf("(s_arr %s)", a.term)), typ: types.NewArray(sl.Elem(), 0)}
+	case "visited":
+		// visited(k[, n]): key k has already been produced by the (n-th) map range of this function
+		if len(x.Args) != 1 && len(x.Args) != 2 {
+			return se.fail("visited expects (key) or (key, n)")
+		}
+		n := 1
+		if len(x.Args) == 2 {
+			lit, ok := x.Args[1].(*ast.BasicLit)
+			if !ok {
+				return se.fail("visited: n must be a literal")
+			}
+			n, _ = strconv.Atoi(lit.Value)
+		}
+		set, kt, ok := se.visitedTerm(n)
+		if !ok {
+			return se.fail("visited: the function has no %d-th map range", n)
+		}
+		k := se.eval(x.Args[0])
+		if k.typ == nil {
+			k = se.retype(k, kt)
+		}
+		return tv{term: sel(set, k.term), typ: boolT}
 	case "has":
 		// has(m, k): key k is present in map m
 		m, k := se.eval(x.Args[0]), se.eval(x.Args[1])
